@@ -60,26 +60,32 @@ def toU64 (d : Bytes) : Except Err Nat :=
       | .ok (r, left) => if left.isEmpty then .ok r else .error .allDigits
     else .error .allDigits
 
+/-- the tail shared by the three arms of `to_i64_t`: `to_u64_t2(data, start)`, then
+`i64::try_from(val)` (fails above `i64::MAX`), then `sign * val`. -/
+def toI64Go (data : Bytes) (sign : Int) (start : Nat) : Except Err (Int × Bytes) :=
+  match toU64T2 data start with
+  | .error e => .error e
+  | .ok (v, rest) =>
+    if v > I64_MAX then .error .overflow else .ok (sign * (v : Int), rest)
+
 /-- scalar.rs:249 `to_i64_t` -/
 def toI64T (d : Bytes) : Except Err (Int × Bytes) :=
   match d with
   | [] => .error .allDigits
   | c :: data =>
-    let go (sign : Int) (start : Nat) : Except Err (Int × Bytes) :=
-      match toU64T2 data start with
-      | .error e => .error e
-      | .ok (v, rest) =>
-        if v > I64_MAX then .error .overflow else .ok (sign * (v : Int), rest)
-    if isDigit c then go 1 (digitVal c)
-    else if c == 45 then go (-1) 0
-    else if c == 43 then go 1 0
+    if isDigit c then toI64Go data 1 (digitVal c)
+    else if c == 45 then toI64Go data (-1) 0
+    else if c == 43 then toI64Go data 1 0
     else .error .allDigits
 
-/-- scalar.rs:239 `to_i64` -/
-def toI64 (d : Bytes) : Except Err Int :=
-  match toI64T d with
+/-- the `if !left.is_empty() { Err(AllDigits) } else { Ok(r) }` of `to_i64` (with `?`). -/
+def requireEmpty (r : Except Err (Int × Bytes)) : Except Err Int :=
+  match r with
   | .error e => .error e
   | .ok (r, left) => if left.isEmpty then .ok r else .error .allDigits
+
+/-- scalar.rs:239 `to_i64` -/
+def toI64 (d : Bytes) : Except Err Int := requireEmpty (toI64T d)
 
 /-- scalar.rs:169 `to_bool` -/
 def toBool (d : Bytes) : Except Err Bool :=
